@@ -207,7 +207,8 @@ def check(ctx):
     out = ctx.path("trace_merge_random.ndjson")
     ctx.harness("c12", "merge-random", "--seed", ctx.seed, "--n", 300 if q else 3000, "--out", out)
     validate_merge(ctx, out, "merge_random")
-    require_arms(ctx)
+    if not ctx.violations:      # (with violations a missing arm is a symptom of the defect, not vacuity)
+        require_arms(ctx)
     return ctx.finish(extra={"trace_arm_counts": ctx.arms})
 
 
